@@ -6,12 +6,14 @@
 //!   witvalid (C09/C31) `<hex wit text>` -> `valid` | `invalid <hex msg>` : component-model validity of the package
 //!   rustid   (C09)  see rustid.rs
 //!   scopes   (C09/C31) see scopes.rs
+//!   rustmeta (C09)  see rustmeta.rs
 //!   rustgen  (C09)  see gen.rs
 //!   cppgen   (C31)  see gen.rs
 use std::io::{BufRead, Write};
 
 mod gen;
 mod rustid;
+mod rustmeta;
 mod scopes;
 mod util;
 mod witpkg;
@@ -22,6 +24,7 @@ fn main() {
         "witpkg" => witpkg::handle,
         "witvalid" => witpkg::handle_valid,
         "rustid" => rustid::handle,
+        "rustmeta" => rustmeta::handle,
         "scopes" => scopes::handle,
         "rustgen" => gen::handle_rust,
         "cppgen" => gen::handle_cpp,
